@@ -94,13 +94,13 @@ CLAIMS = {
         design="5 C15"),
     "C16": dict(
         text="Proof: Binary.ReadBinary / ReadString return a value whose backing memory is fresh (not allocated before the call, hence disjoint from the input and from every earlier result) "
-             "with content equal to the input bytes, under both settings of the span cache (the flag is an unconstrained global in the VC).",
-        note="The span allocator itself is a dependency with a trusted contract (Copy returns a [:n:n] slice disjoint from everything handed out before). Stream reader not yet covered. " + TRUST,
+             "with content equal to the input bytes, under both settings of the span cache (the flag is an unconstrained global in the VC); likewise the stream reader's results and the method names returned by ReadMessageBegin / UnmarshalFastMsg.",
+        note="The span allocator itself is a dependency with a trusted contract (Copy returns a [:n:n] slice disjoint from everything handed out before). The stream reader (BufferReader.ReadBinary/ReadString) and the decoded message names (ReadMessageBegin, UnmarshalFastMsg) are covered by the same freshness clause. " + TRUST,
         design="5 C16"),
     "C17": dict(
         text="Proof: every failure of the thrift.Binary readers, ReadMessageBegin and Skip is the predeclared protocol exception for its cause: INVALID_DATA for truncation and unknown types, "
              "NEGATIVE_SIZE, BAD_VERSION, DEPTH_LIMIT; the type ids of the predeclared errors come from symbolically executing the package initialiser.",
-        note="Stream reader error wrapping not yet covered. Objects created by the package initialiser are assumed not to be mutated afterwards. " + TRUST,
+        note="For the stream reader every failure is a protocol exception that is, or wraps, exactly the error the underlying bufiox.Reader reported (ghost $lasterr). Objects created by the package initialiser are assumed not to be mutated afterwards. " + TRUST,
         design="5 C17"),
     "C06": dict(
         text="Proof of the layout and framing arithmetic of TTHeader encoding over the bufiox.Writer interface contract (every writer, every buffer growth): on success Encode appended exactly 14 + size "
